@@ -49,7 +49,10 @@ SPEC = {
         "fewer than 2^32 darts",
     ],
     "rule": "quick: ~70 geometries (same families as C16) x clip {left, right, none} x points of interest {all, some, none}; "
-            "+ loops inside one cell; + classify correspondence on hand-made anchored maps. thorough: x8.",
+            "+ loops inside one cell; + 25 polygons with an edge through a grid corner (exact family) x up to 3 segment orders x 3 "
+            "clips, the real step-1 slots probed through the hook grisubal::verif::intersection_data (finding D17b = D16c: panic exactly "
+            "when a NaN slot precedes a written one; all clauses required otherwise); + classify correspondence on hand-made anchored "
+            "maps. thorough: x8.",
     "not_proved": [
         "C17_classify_asserts_never_fire: that the three debug_assert!s of classify_capture cannot fail on capture outputs "
         "(C17_classify_ok_all_anchored is the statement WITH the assertions, as in the debug build the harness runs). It is "
@@ -228,6 +231,29 @@ def oracle(case, li):
     if not f:
         return None
     return "; ".join(f[:8]), classify_failure(g, clip, s, f)
+
+
+def corner_oracle(case, li):
+    """edges through grid corners: same clauses; a panic of capture_geometry is the listed finding only when the real
+    step-1 slots (hook, `gcrossd` probes) have a NaN slot before a filled one (c16.nan_before_filled)"""
+    if case.oracle != "c17corner":
+        return None
+    if any(ln.startswith("<missing") for ln in li):
+        return "driver-died: " + li[0]
+    at = case.meta["probe_at"]
+    shifted = c16.nan_before_filled(li[at:at + case.meta["nseg"]])
+    case.meta["facts"]["nan_slot_before_filled_slot"] = shifted
+    if shifted is None:
+        return "probe-failed: the step-1 hook refused a segment: " + "; ".join(li[at:])[:200]
+    if li[0] == "panic":
+        return "panic: capture_geometry panicked on a valid geometry (an edge passes through a grid corner)", \
+            ("nan-slot-shifts-intersection-ids" if shifted else None)
+    case.oracle = "c17"
+    try:
+        r = oracle(case, li)
+    finally:
+        case.oracle = "c17corner"
+    return (r[0], None) if isinstance(r, tuple) else r
 
 
 def classify_failure(g, clip, s, fails):
@@ -415,6 +441,9 @@ def run(tier, seed):
     cap = capture_cases(rng, 70 * mult)
     parts.append(("capture + classify on polygons in general position (implementation, oracle)", gg.impl_campaign(cap, oracle)))
     parts.append(("loops inside one grid cell", gg.impl_campaign(tiny_cases(rng, 6 * mult), oracle)))
+    parts.append(("edges through grid corners (exact family; step-1 slots probed through the hook)",
+                  gg.impl_campaign(c16.corner_cases(rng, 25 * mult, cmd="capture", oracle_name="c17corner", obs=("wf", "snap", "classify", "snap")),
+                                   corner_oracle)))
     parts.append(("classify: hand-made anchored grids, model vs implementation", hv.campaign(grid_cases(rng, 150 * mult), None)))
     parts.append(("classify: all well-formed 2-maps with <= 3 darts (+ sampled 4-dart maps), model vs implementation",
                   hv.campaign(small_map_cases(rng, 4, 600 * mult), None)))
